@@ -79,6 +79,16 @@ def c20_1(ctx, r):
             found += 1
             r.check(bool(sib), f"{base}: max and min comparisons are independent statements", key_of(fn, f"{base} {kind1} without sibling"), fn.loc(n),
                     f"only the {kind1} of {base} is updated in this block")
+            # independent comparisons are exact only if the table starts at the neutral element (or at a value that is
+            # itself a counted sample - not decidable here): min from +inf, max from 0 / -inf
+            neutral = {"min": ("sys.maxsize", "float('inf')", "math.inf", "inf"), "max": ("0.0", "0", "float('-inf')", "-math.inf", "-sys.maxsize")}
+            for (m2, st2, k2, v2) in stores.get(base, []):
+                if k2 == kind1 and not _inside(ctx, m2, st2, n) and m2 is not fn:
+                    txt = ast.unparse(v2).replace('"', "'")
+                    r.check(txt in neutral[kind1], f"{base}['{'minimum' if kind1 == 'min' else 'maximum'}'] starts at the neutral element", key_of(m2, f"{base} {kind1} initialised with {txt}"), m2.loc(st2),
+                            f"{m2.short} initialises the running {kind1} of {base} with `{txt}`, a value that is not one of the samples folded in by update_resource_stats (the sum and the count do not include it): "
+                            f"if every later sample lies {'above' if kind1 == 'min' else 'below'} it the reported {kind1}imum is a value that was never sampled",
+                            "report the true minimum, maximum and mean of the samples taken")
             continue
         found += 1
         # elif form: sound only if every other store pair into (max,min) of this base uses the same value
@@ -205,31 +215,33 @@ def _inside(ctx, m, st, outer):
 
 
 # ----------------------------------------------------------- C20.2 partition
-def _fold(e, rc_zero, status):
-    """Abstractly evaluate a Result predicate body for a cell (rc == 0?, status)."""
+def _fold(e, rc, status):
+    """Abstractly evaluate a Result predicate body for a cell (sign of the return code in {-1, 0, 1}, status).
+    Negative codes exist: Popen.returncode is -N for a process killed by signal N."""
     if isinstance(e, ast.BoolOp):
-        vals = [_fold(v, rc_zero, status) for v in e.values]
+        vals = [_fold(v, rc, status) for v in e.values]
         if any(v is None for v in vals):
             return None
         return all(vals) if isinstance(e.op, ast.And) else any(vals)
     if isinstance(e, ast.UnaryOp) and isinstance(e.op, ast.Not):
-        v = _fold(e.operand, rc_zero, status)
+        v = _fold(e.operand, rc, status)
         return None if v is None else not v
     if isinstance(e, ast.Compare) and len(e.ops) == 1:
         l, rgt, op = ast.unparse(e.left), ast.unparse(e.comparators[0]), e.ops[0]
+        if rgt == "self.return_code" and l == "0":
+            l, rgt = rgt, l
+            op = {ast.Lt: ast.Gt(), ast.Gt: ast.Lt(), ast.LtE: ast.GtE(), ast.GtE: ast.LtE()}.get(type(op), op)
         if l == "self.return_code" and rgt == "0":
-            if isinstance(op, ast.Eq):
-                return rc_zero
-            if isinstance(op, ast.NotEq):
-                return not rc_zero
-            if isinstance(op, ast.Gt):
-                return None  # sign unknown in the abstraction
+            table = {ast.Eq: rc == 0, ast.NotEq: rc != 0, ast.Gt: rc > 0, ast.GtE: rc >= 0, ast.Lt: rc < 0, ast.LtE: rc <= 0}
+            return table.get(type(op))
         if l == "self.status" and rgt.startswith("JobCompletionStatus.") and rgt.endswith(".value"):
             name = rgt.split(".")[1]
             if isinstance(op, ast.Eq):
                 return status == name
             if isinstance(op, ast.NotEq):
                 return status != name
+    if isinstance(e, ast.Attribute) and ast.unparse(e) == "self.return_code":
+        return rc != 0
     return None
 
 
@@ -247,21 +259,22 @@ def c20_2(ctx, r):
         if rx is None:
             raise AnalysisError("C20.2", f"Result.{name} is not a single return expression")
         preds[name] = rx
-    cells = [(True, "FINISHED"), (False, "FINISHED"), (False, "CANCELED")]
-    for rc0, st in cells:
-        vals = {n: _fold(e, rc0, st) for n, e in preds.items()}
+    cells = [(0, "FINISHED"), (1, "FINISHED"), (-1, "FINISHED"), (1, "CANCELED")]
+    for rc, st in cells:
+        vals = {n: _fold(e, rc, st) for n, e in preds.items()}
         if any(v is None for v in vals.values()):
             raise AnalysisError("C20.2", f"predicate outside the abstraction: {vals}")
         true = [n for n, v in vals.items() if v]
-        want = {(True, "FINISHED"): "is_successful", (False, "FINISHED"): "is_failed", (False, "CANCELED"): "is_canceled"}[(rc0, st)]
+        want = "is_canceled" if st == "CANCELED" else ("is_successful" if rc == 0 else "is_failed")
+        rcd = {0: "0", 1: "positive", -1: "negative (killed by a signal)"}[rc]
         r.check(
             true == [want],
-            f"cell rc{'==' if rc0 else '!='}0/{st}: exactly {want}",
-            key_of(cls.methods[want], f"cell rc{'==' if rc0 else '!='}0/{st} -> {true}"),
+            f"cell rc {rcd}/{st}: exactly {want}",
+            key_of(cls.methods[want], f"cell rc {'=' if rc == 0 else ('>' if rc > 0 else '<')} 0/{st} -> {true}"),
             cls.methods[want].loc(),
-            f"a result with return code {'0' if rc0 else 'non-zero'} and status {st} satisfies {true or 'no predicate'} instead of exactly [{want}]: it is tallied in the wrong class or trips the tally assertion",
+            f"a result with return code {rcd} and status {st} satisfies {true or 'no predicate'} instead of exactly [{want}]: it is tallied in the wrong class or in none (the tally assertion fails and results.json is never written)",
             "the results summary counts each job in exactly one of successful / failed / canceled / missing",
-            cell=[("rc==0" if rc0 else "rc!=0"), st],
+            cell=[rcd, st],
         )
 
 
@@ -435,3 +448,28 @@ def c20_6(ctx, r):
     from .c13 import closure_before_consumers
 
     closure_before_consumers(ctx, r, "C20.6")
+
+
+@rule(P, "C20.7", "T10+T8", "every process opens its event file for appending (the files are shared by successive commands of one submission)", min_obligations=6)
+def c20_7(ctx, r):
+    sel = ctx.fn("loggers.setup_event_logging", "C20.7")
+    n = 0
+    for f in ctx.ix.functions.values():
+        for s in ctx.cg.sites_in(f):
+            if not s.calls_short(ctx.ix, "loggers.setup_event_logging"):
+                continue
+            n += 1
+            m = ctx.arg_for(s, sel, "mode")
+            r.check(isinstance(m, ast.Constant) and m.value == "a", f"{f.short}: event log opened with mode='a'", key_of(f, "event log truncated"), s.loc,
+                    f"`{ctx.src(s.node)}` opens the event file with mode {ctx.src(m) if m is not None else repr('w') + ' (the default)'}: the events that earlier commands / rounds of this submission wrote to the same file are erased "
+                    "and are missing from the consolidated summary", "Every structured event written by any JADE process of a submission appears exactly once")
+    if n < 6:
+        raise AnalysisError("C20.7", f"only {n} setup_event_logging call sites found (6 confirmed by reading)")
+    # the mode reaches the file handler
+    ok = False
+    for d in ast.walk(sel.node):
+        if isinstance(d, ast.Dict):
+            for k, v in zip(d.keys, d.values):
+                if isinstance(k, ast.Constant) and k.value == "mode" and isinstance(v, ast.Name) and v.id == "mode":
+                    ok = True
+    r.check(ok, "the handler is configured with the requested mode", key_of(sel, "handler mode"), sel.loc(), "setup_event_logging no longer passes `mode` to the file handler")
